@@ -259,14 +259,20 @@ Lemma run_bigmachine_tasks_spec : forall tasks w k w1 r,
      forall m, (m < wreg w)%nat -> peek w1 (1 + 4 * (k + n)) m = wrap (sum_incs m l)) /\
   (forall j m, (j <= 4 * k)%nat -> slot_of w1 j m = slot_of w j m /\ peek w1 j m = peek w j m).
 Proof.
-  induction tasks as [|l tasks IH]; intros w k w1 r W Hk Fresh Ck R; simpl in R.
-  - inversion R; subst. splits; auto using shape_refl. intros [|n] l E; discriminate.
+  induction tasks as [|l tasks IH]; intros w k w1 r W Hk Fresh Ck R.
+  - simpl in R. inversion R; subst. splits; auto using shape_refl. intros [|n] l E; discriminate.
   - simpl in Hk.
-    destruct (bigmachine_task w (S (S (k + (k + (k + (k + 0)))))) (S (S (S (k + (k + (k + (k + 0)))))))
-                (S (S (S (S (k + (k + (k + (k + 0)))))))) (S (k + (k + (k + (k + 0))))) l) as [wa ra] eqn:B.
-    destruct (bigmachine_task_spec _ _ _ _ _ _ _ _ W ltac:(lia) ltac:(lia) ltac:(lia) ltac:(lia)
+    change (run_bigmachine_tasks w k (l :: tasks)) with
+      (match bigmachine_task w (2 + 4 * k) (3 + 4 * k) (4 + 4 * k) (1 + 4 * k) l with
+       | (w1, Ok _) => run_bigmachine_tasks w1 (S k) tasks
+       | (w1, Panic) => (w1, Panic)
+       end) in R.
+    destruct (bigmachine_task w (2 + 4 * k) (3 + 4 * k) (4 + 4 * k) (1 + 4 * k) l) as [wa ra] eqn:B.
+    assert (Fr0 : forall m, slot_of w (2 + 4 * k)%nat m = None) by (intro m; apply Fresh; lia).
+    destruct (bigmachine_task_spec w (2 + 4 * k)%nat (3 + 4 * k)%nat (4 + 4 * k)%nat (1 + 4 * k)%nat l wa ra W
+                ltac:(lia) ltac:(lia) ltac:(lia) ltac:(lia)
                 ltac:(lia) ltac:(lia) ltac:(lia) ltac:(lia) ltac:(lia) ltac:(lia)
-                (fun m => Fresh _ m ltac:(lia)) (Ck l (or_introl eq_refl)) B)
+                Fr0 (Ck l (or_introl eq_refl)) B)
       as (-> & Wa & Sha & Pa & Fa).
     assert (Hka : (4 * (S k + length tasks) < plen wa)%nat) by (destruct Sha as (_ & P & _); lia).
     assert (Fra : forall j m, (4 * S k < j)%nat -> slot_of wa j m = None).
@@ -280,7 +286,7 @@ Proof.
     + intros [|n] l' E m Hm; simpl in E.
       * inversion E; subst l'.
         rewrite (proj2 (F1 (1 + 4 * (k + 0))%nat m ltac:(lia))).
-        replace (1 + 4 * (k + 0))%nat with (S (k + (k + (k + (k + 0))))) by lia.
+        replace (1 + 4 * (k + 0))%nat with (1 + 4 * k)%nat by lia.
         apply Pa. exact Hm.
       * replace (1 + 4 * (k + S n))%nat with (1 + 4 * (S k + n))%nat by lia.
         eapply P1; eauto. destruct Sha as (R' & _). lia.
@@ -297,7 +303,7 @@ Proof.
   intro Ck. unfold run_bigmachine.
   set (n := length tasks). set (w0 := init reg (1 + 4 * n)).
   assert (W0 : wf w0) by apply wf_init.
-  assert (P0 : plen w0 = (1 + 4 * n)%nat) by (unfold plen, w0, init; simpl wpool; rewrite repeat_length; reflexivity).
+  assert (P0 : plen w0 = (1 + 4 * n)%nat) by (unfold plen, w0, init; cbn [wpool]; apply repeat_length).
   destruct (run_bigmachine_tasks w0 0 tasks) as [w1 r1] eqn:R.
   destruct (run_bigmachine_tasks_spec tasks w0 0 w1 r1 W0) as (-> & W1 & Sh1 & P1 & F1); auto.
   { rewrite P0. unfold n. lia. }
